@@ -252,12 +252,6 @@ void h_assert(void)
     g_shadow_current_first_column = in_first_col0;
     Environment *env = (Environment *)nondet_ptr();
     Value r = eval_statement(&g_assert, env);
-#ifdef VERIF_ASSERT_MAX
-    __CPROVER_assert(g_shadow_current_fail_count > 0, "C03.assert.nowrap after a failed assertion the failure counter is positive (run_shadow_tests tests `> 0`)");
-    VERIF_COVER(1);
-    (void)r;
-    return;
-#endif
     __CPROVER_assert(r.type == VAL_VOID && EV_PLAIN(r), "C03.assert the statement yields a plain void");
     __CPROVER_assert(__verif_ev.calls0 == 1, "C03.assert the condition is evaluated exactly once");
     __CPROVER_assert(in_ba || in_shadow, "C03.assert a false assertion outside shadow tests ends the run (never returns)");
@@ -266,7 +260,14 @@ void h_assert(void)
         __CPROVER_assert(g_shadow_current_first_line == in_first_line0 && g_shadow_current_first_column == in_first_col0,
                          "C03.assert true condition: first-failure location unchanged");
     } else {
+#ifdef VERIF_ASSERT_MAX
+        /* counter already at INT_MAX (in_fail0 + 1 does not exist): whatever the code does, run_shadow_tests' `> 0` test must still see a
+           failure, and the count must not go DOWN (a saturating counter stays at INT_MAX; a wrapping one fails both) */
+        __CPROVER_assert(g_shadow_current_fail_count > 0, "C03.assert.nowrap after a failed assertion the failure counter is positive (run_shadow_tests tests `> 0`)");
+        __CPROVER_assert(g_shadow_current_fail_count >= in_fail0, "C03.assert.nowrap the failure counter never decreases");
+#else
         __CPROVER_assert(g_shadow_current_fail_count == in_fail0 + 1, "C03.assert false condition: failure counter incremented by exactly one");
+#endif
         if (in_first_line0 == 0)
             __CPROVER_assert(g_shadow_current_first_line == in_line && g_shadow_current_first_column == in_column,
                              "C03.assert false condition, no failure recorded yet: location of THIS statement recorded");
@@ -275,8 +276,12 @@ void h_assert(void)
                              "C03.assert false condition, a failure already recorded: first-failure location kept");
     }
     __CPROVER_assert(g_in_shadow_tests == in_shadow, "C03.assert the mode flag is not touched");
+#ifdef VERIF_ASSERT_MAX       /* this case: false condition, inside shadow tests, counter full */
+    VERIF_COVER(in_first_line0 == 0); VERIF_COVER(in_first_line0 != 0);
+#else
     VERIF_COVER(in_ba && in_shadow); VERIF_COVER(in_ba && !in_shadow);
     VERIF_COVER(!in_ba && in_first_line0 == 0 && in_fail0 == 0); VERIF_COVER(!in_ba && in_first_line0 != 0 && in_fail0 > 0);
+#endif
 }
 
 /* ---- C08.int.<acc>: the interpreter's array accessors with an index outside [0, length) never yield a value ----
